@@ -17,12 +17,23 @@ def prepare(run, prop, module, theorems, need_calc=False):
     obligations, discharged, axioms, aprobs = vlib.audit_theorems(prop, module, theorems)
     problems.extend(aprobs)
     used = sorted({a for l in axioms.values() for a in l})
+    chk_note = []
+    if run.tier == "thorough":
+        cprobs, caxioms = vlib.coqchk_module(module)
+        problems.extend(cprobs)
+        groups = sorted({".".join(a.split(".")[:3]) for a in caxioms})
+        other = sorted(a for a in caxioms if not a.startswith(("Coq.Floats.", "Coq.Numbers.Cyclic.Int63.")))
+        chk_note = ["coqchk -o re-checked %s and all its dependencies: no type-in-type, no unsafe fixpoints, no assumed "
+                    "positivity; axioms of the loaded standard-library files (used by a theorem or not): %d primitive "
+                    "float/int constants and their specification axioms under %s, and %s"
+                    % (module, len(caxioms) - len(other), ", ".join(g for g in groups if g.startswith(("Coq.Floats", "Coq.Numbers"))),
+                       ", ".join(other) if other else "nothing else")]
     run.cov.update({
         "obligations": obligations,
         "discharged": discharged if not bad else 0,
         "checker_cmd": "make -C /verif/coq && coqc -Q /verif/coq Calc /verif/build/audit/Audit_%s.v" % prop,
         "trusted_base": vlib.TRUSTED_BASE + ["axioms reported by Print Assumptions for this property's theorems: %s"
-                                             % (", ".join(used) if used else "none (closed under the global context)")],
+                                             % (", ".join(used) if used else "none (closed under the global context)")] + chk_note,
         "theorems": theorems,
     })
     return problems
